@@ -30,7 +30,7 @@ theorem notify_open (u : Nat) (topic : String) (pid : Option Nat) (x : String) (
   unfold notify
   simp only [bind, getA, getW]
   erw [if_neg (by simp [hp])]
-  simp [emit, modS, hb, Obs.isRep]
+  simp [emitEv, modS, hb]
 
 /-- **every hook call is reported by exactly one event and evaluates as documented**: an exception
     counts as false unless the hook is in the ignore-failure list, in which case as true; the event is
